@@ -15,6 +15,7 @@ import sys
 import shutil
 import tempfile
 import itertools
+import pickle
 import subprocess
 import contextlib
 from .. import core
@@ -210,6 +211,62 @@ def compile_all(tmp, modules, extras=()):
     return None
 
 
+REBUILD_LIBS = [
+    "int calls;\nfunction weight(int x) -> int { return x * 2; }\nexport function scale(int x) -> int { calls = calls + 1; return weight(x) + 1; }\nexport function count() -> int { return calls; }\n",
+    "int calls;\nfunction weight(int x) -> int { return x * 3; }\nexport function scale(int x) -> int { calls = calls + 1; return weight(x) + 5; }\nexport function count() -> int { return calls; }\n",
+    "int calls;\nfunction weight(int x) -> int { return x * 2; }\nexport function scale(int x) -> int { calls = calls + 1; return weight(x) + 1; }\nexport function count() -> int { return calls; }\n",
+    "int calls;\nfunction weight(int x) -> int { return x - 4; }\nexport function scale(int x) -> int { calls = calls + 2; return weight(x) * 2; }\nexport function twice(int x) -> int { return scale(x) + scale(x); }\nexport function count() -> int { return calls * 3; }\n",
+]
+REBUILD_MAIN = "export function f(int a, int b) -> int { int r = scale(a) - scale(b) * 2; return r * 10 + count(); }\n"
+
+
+def run_rebuild(inst, res):
+    """a library module is edited and built again under the same file name, and the program is linked again in this (one) process:
+    every build must behave like the single-module program made from the sources of that build"""
+    tmp = tempfile.mkdtemp(prefix="verif-c16r-")
+    res["sample"] = dict(kind="rebuild", generations=len(REBUILD_LIBS), how=inst["how"])
+    try:
+        for gen, lib in enumerate(REBUILD_LIBS):
+            single = lib + REBUILD_MAIN
+            modules = [("lib", lib, ()), ("main", 'import "lib";\n' + REBUILD_MAIN, ("lib",))]
+            if inst["how"] == "child":
+                err = compile_all(tmp, modules)
+                if err:
+                    res["violations"].append(dict(what=f"generation {gen}: {err}", replay=dict(harness="C16", inst=inst, kind="rebuild")))
+                    return res
+            else:
+                # compiled and stored by this process (a build tool that keeps running), imports resolved relative to the directory
+                with chdir(tmp), contextlib.redirect_stdout(io.StringIO()):
+                    for name, text, _ in modules:
+                        mod = joint.compile_source(text)
+                        with open(name + ".nslir", "wb") as f:
+                            pickle.dump(mod.IRModule, f)
+            try:
+                linked, _ = link_variant(tmp, ["main"])
+            except Exception as e:  # noqa: BLE001
+                res["violations"].append(dict(what=f"generation {gen} of the library: linking fails: {type(e).__name__}: {str(e)[:120]}", replay=dict(harness="C16", inst=inst, kind="rebuild")))
+                return res
+            ref = joint.link(joint.compile_source(single))
+            prog = parse(single)
+            r = diffcheck.check_pair(prog, "f", ref, linked, harness="C16", inst=inst, extra_pre=famcheck.make_pre(dict(bounds={}, small=True)), label=("single-module", "linked after rebuilding the library"),
+                                     replay_fn=lambda vals: diffcheck.concrete_pair(prog, "f", ref, linked, vals, label=("single-module", "linked after rebuilding the library")))
+            for k in ("paths", "queries", "unsat", "sat", "undecided", "cut", "solver_time"):
+                res[k] += r[k]
+            for v in r["violations"]:
+                v["what"] = f"generation {gen} of the library (same file name, same process): " + v["what"]
+                v["replay"] = dict(harness="C16", inst=inst, kind="rebuild")
+            res["violations"] += r["violations"]
+            res["errors"] += r["errors"]
+            res["nontrivial"] = res["nontrivial"] or r["nontrivial"]
+            if r["violations"]:
+                break
+    except joint.Rejected as e:
+        res["errors"].append(f"rebuild program rejected: {e}")
+    finally:
+        shutil.rmtree(tmp, ignore_errors=True)
+    return res
+
+
 def run_instance(inst):
     res = dict(paths=0, queries=0, unsat=0, sat=0, undecided=0, cut=0, violations=[], errors=[], nontrivial=False, known=[], solver_time=0.0)
     res["key"] = repr(sorted(inst.items()))
@@ -217,6 +274,8 @@ def run_instance(inst):
     kind = inst.get("kind", "partition")
     if kind == "duplicate":
         return run_duplicate(inst, res)
+    if kind == "rebuild":
+        return run_rebuild(inst, res)
     modules, single = build_modules(inst["base"], tuple(inst["assign"]), inst.get("import_pos", "first"), inst.get("import_order", "sorted"))
     res["sample"] = dict(base=inst["base"], assign=inst["assign"], import_pos=inst.get("import_pos"), modules=[(n, t[:200]) for n, t, _ in (modules or [])])
     if modules is None:
@@ -430,6 +489,8 @@ def instances(tier, seed):
         out.append(dict(base="calls", assign=assign, import_pos="first", extras=["e1", "e2"]))
     for case in DUPLICATES:
         out.append(dict(kind="duplicate", case=case))
+    out.append(dict(kind="rebuild", how="child"))
+    out.append(dict(kind="rebuild", how="in-process"))
     return out
 
 
